@@ -6,12 +6,16 @@ PROP = {
                    "up to 2^20), every LookUp (exhaustive for k<=300, structured samples beyond), bucket count, encoded size and "
                    "serialisation round trip are compared with a BOLT-3 reference (generate_from_seed / insert_secret / "
                    "derive_old_secret) and hostile secrets (bit flip, neighbouring index, replay, random, other seed) must be "
-                   "accepted exactly when the BOLT-3 rule cannot detect them. release unit: on E1 schedules with restarts, "
+                   "accepted exactly when the BOLT-3 rule cannot detect them. A quarter of the store cases are DEEP stores: the state after the first k "
+                   "secrets for structured k up to 2^48-9 (2^j, 2^j+-1, two-bit, alternating, 46/47-bit, random 48-bit; up to 48 buckets) is built "
+                   "structurally from lnd's own producer (construction validated against real sequential insertion for small k in every case) "
+                   "and gets the same oracles: sampled LookUps, serialisation round trip, hostile secret at k, honest continuation that opens "
+                   "deeper buckets, round trip after each continuation step. release unit: on E1 schedules with restarts, "
                    "disconnects and hostile revocations, at the instant a revoke_and_ack is returned a copy of that side's DB is "
                    "reloaded: its current commitment must already be newer and pass btcd's script interpreter; released heights are "
                    "consecutive (repeat only as a reconnect retransmission) and the next point is the chain's point h+2; corrupted or "
                    "out-of-order revocations are rejected by ReceiveRevocation."),
-    "level_note": ("2^48 index space is sampled: honest sequential insertion reaches bucket ~20 (AddNextEntry is sequential); "
+    "level_note": ("2^48 index space is sampled: honest sequential insertion reaches bucket ~20 (AddNextEntry is sequential), deeper buckets through structurally built stores (deep cases); "
                    "a crash inside RevokeCurrentCommitment (between its DB write and its return) is not modelled; held on the "
                    "executions counted in evidence."),
     "design_ref": "DESIGN.md §3 C06",
@@ -22,8 +26,10 @@ PROP = {
         {"name": "store", "pkg": "shachain", "test": "TestVerifC06Store",
          "files": ["shachain/c06_test.go"],
          "shards": {"quick": 6, "thorough": 16},
-         "floors": {"quick": {"oracle_lookup": 100000, "oracle_hostile": 400, "hostile_rejected": 100},
-                    "thorough": {"oracle_lookup": 2000000}}},
+         "floors": {"quick": {"oracle_lookup": 100000, "oracle_hostile": 400, "hostile_rejected": 100,
+                              "deep_cases": 200, "deep_construction_selfcheck": 200, "oracle_roundtrip_deep": 1200,
+                              "oracle_hostile_deep": 200, "max:deep_buckets": 48},
+                    "thorough": {"oracle_lookup": 2000000, "deep_cases": 10000, "max:deep_buckets": 48}}},
         {"name": "release", "pkg": "lnwallet", "test": "TestVerifC06Release",
          "files": _E1 + ["lnwallet/c01_test.go", "lnwallet/c06_test.go"],
          "shards": {"quick": 10, "thorough": 16},
